@@ -104,7 +104,8 @@ def _serve(repo):
         _, st = os.waitpid(pid, 0)
         import shutil
 
-        shutil.rmtree(f"/dev/shm/tucansim-{pid}", ignore_errors=True)
+        for base in ("/dev/shm", os.environ.get("TMPDIR") or "/tmp"):
+            shutil.rmtree(os.path.join(base, f"tucansim-{pid}"), ignore_errors=True)
         if status == "timeout":
             ans = {"job": job.get("job"), "status": "timeout", "error": f"run exceeded {limit}s"}
         else:
